@@ -166,12 +166,21 @@ func genRunCfg(rng *Rng, p profile) (*RunCfg, *genState) {
 	if p.forceMono > 0 && rng.Chance(p.forceMono) {
 		g.regime = rng.Pick(40, 60)
 	}
+	if p.name == "protocol" {
+		// Recover is combined with a time index only for never-decreasing times
+		if cfg.Times {
+			g.regime = rng.Pick(40, 60)
+		}
+	}
 	cfg.Monotone = g.regime <= 1
 	g.sizes = rng.Pick(15, 55, 30)
 	cfg.KeySet = genKeySet(rng, p)
 	cfg.ObsSeed = rng.U64()
 	cfg.Every = p.every
 	g.cur = g.genOpenOpts(true)
+	if p.name == "protocol" {
+		g.cur.AutoSync = rng.Bool()
+	}
 	cfg.Open = g.cur
 	return cfg, g
 }
